@@ -434,8 +434,14 @@ class FunctionReport:
         self.dep_shas = {}         # qualified name -> sha256 of the source text (the function itself under '')
 
 
-def verify_function(reg, c, budget_paths=MAX_PATHS):
-    """Explore every path of the real function and collect the obligations."""
+def verify_function(reg, c, budget_paths=MAX_PATHS, via=None):
+    """Explore every path of the real function and collect the obligations.
+
+    `via`: REFINEMENT mode.  `c` is an assumed summary (a `trusted=True` contract that one sidecar module states for
+    a function) and `via` the contract another module PROVES for the same function: instead of interpreting the body
+    the function is entered through `via` (its precondition is proved from the summary's, its result is havocked and its
+    postconditions are assumed), and the clauses of the summary are the obligations.  What is established is
+    "the summary is implied by the proved contract"; no reachability cover (there is no body)."""
     rep = FunctionReport(c.qname)
     t0 = time.time()
     func = c.func
@@ -463,10 +469,10 @@ def verify_function(reg, c, budget_paths=MAX_PATHS):
         stats = {}
         st = PathState(prefix, stats)
         interp = Interp(st, reg)
-        interp.fn_name = c.qname
+        interp.fn_name = c.qname if via is None else refinement_name(c, via)
         interp.cover_file = info.filename
         try:
-            _run_path(interp, reg, c, func, rep)
+            _run_path(interp, reg, c, func, rep, via=via)
             rep.paths += 1
             covered |= st.reached
         except PathAbort:
@@ -502,7 +508,7 @@ def verify_function(reg, c, budget_paths=MAX_PATHS):
         rep.unknown_feasibility += st.unknown_feasibility
         rep.feasibility_queries += stats.get('feasibility_queries', 0)
         rep.slow_queries.extend(stats.get('slow_queries', []))
-    if c.cover and not rep.unsupported and not rep.errors:
+    if c.cover and via is None and not rep.unsupported and not rep.errors:
         # reachability cover (DESIGN 2.4): every return / raise of the function must lie on a feasible
         # path, otherwise assumptions (preconditions, assumed postconditions of callees) cut it off and
         # the obligations on that exit were never generated
@@ -554,22 +560,35 @@ def _cleanup(st):
             pass
 
 
-def make_inputs(interp, c):
+def make_inputs(interp, c, via=None):
     ghosts = {}
     interp.reg.ghost_env = ghosts
     for name, ty in c.ghosts.items():
         ghosts[name] = ty.make(interp, 'ghost.' + name) if isinstance(ty, Ty) else ty
     args = {}
-    for name, ty in c.params.items():
+    params = dict(c.params)
+    if via is not None:
+        # refinement: where the summary says nothing about a parameter (`Any_`, or no shape) the arguments are those
+        # the proved contract is stated for (its shapes are its type-preconditions)
+        from .api import Opaq
+        for name, ty in via.params.items():
+            if name not in params or isinstance(params[name], Opaq):
+                params[name] = ty
+    for name, ty in params.items():
         args[name] = ty.make(interp, name) if isinstance(ty, Ty) else ty
     return args, ghosts
 
 
-def _run_path(interp, reg, c, func, rep):
+def refinement_name(c, via):
+    return '%s [summary stated for %s is implied by the contract proved for %s]' % (
+        c.qname, getattr(getattr(c, 'module', None), 'prop', '?'), getattr(getattr(via, 'module', None), 'prop', '?'))
+
+
+def _run_path(interp, reg, c, func, rep, via=None):
     st = interp.st
     if getattr(getattr(c, 'module', None), 'string_alignment', False):
         st.ghost['__align__'] = True      # (pyvc.strings: positions and searches are aligned with known pieces)
-    args, ghosts = make_inputs(interp, c)
+    args, ghosts = make_inputs(interp, c, via)
     reg.ghost_env = dict(ghosts)
     # ghost (monitor) variables declared in `modifies`: the function starts in an arbitrary monitor state
     from .api import Dependent as _Dependent
@@ -642,7 +661,14 @@ def _run_path(interp, reg, c, func, rep):
             yseq.shape = _shape_of_ty(getattr(c.yields, 'elem', None))
         interp.collect = [info, yseq, False]
     try:
-        result = interp.call_real_function(func, pos, kw, c.owner)
+        if via is not None:
+            if via.inline:
+                # (an inline contract is not used at call sites: the summary is proved from the body itself)
+                result = interp.call_real_function(func, pos, kw, c.owner)
+            else:
+                result = apply_contract(interp, via, func, pos, kw)
+        else:
+            result = interp.call_real_function(func, pos, kw, c.owner)
         outcome = ('return', result)
     except PyRaise as e:
         outcome = ('raise', e.exc)
@@ -650,7 +676,7 @@ def _run_path(interp, reg, c, func, rep):
         ghosts = dict(ghosts, yielded=yseq)
     key = 'return' if outcome[0] == 'return' else type(outcome[1]).__name__
     rep.outcomes[key] = rep.outcomes.get(key, 0) + 1
-    fname = c.qname
+    fname = c.qname if via is None else refinement_name(c, via)
     if frame_before is not None:
         _check_frame(interp, c, args, frame_before, fname)
     # frame: a symbolic mutable list reachable from the parameters that the function changed must be declared in
@@ -704,7 +730,7 @@ def _run_path(interp, reg, c, func, rep):
                     matched = True
         if not matched:
             allowed = c.raises_only
-            if allowed is not None or c.raises or c.may_raise or c.ensures:
+            if allowed is not None or c.raises or c.may_raise or c.ensures or via is not None:
                 # an exception the contract does not allow: the obligation `False` under this path
                 st.oblige('%s : raises_only(%s)' % (fname, ', '.join(_exc_name(e) for e in
                                                                      list(c.raises) + list(c.may_raise)
@@ -748,6 +774,9 @@ def _run_path(interp, reg, c, func, rep):
     if c.raises_only is not None and outcome[0] == 'return':
         st.oblige('%s : raises_only(%s)' % (fname, ', '.join(_exc_name(e) for e in list(c.raises) + list(c.may_raise)
                                                             + list(c.raises_only))), True, {'kind': 'raises-only'})
+    if via is not None:
+        # (at least one obligation per path: a summary that only gives shapes and an event is implied trivially)
+        st.oblige('%s : outcomes of the proved contract are outcomes of the summary' % fname, True, {'kind': 'post'})
 
 
 _MISSING = object()
